@@ -372,7 +372,9 @@ def run(doc, log):
             ref = np.asarray(ref)
             fin = np.isfinite(got)
             e = float(np.abs(got[fin] - ref[fin]).max()) if fin.any() else 0.0
-            if e > 1e-6 * (1 + float(np.abs(ref).max())):
+            # felupe solves the lateral stretch with scipy.optimize.root at its default tolerance;
+            # at strong compression the stress is very sensitive to it
+            if e > 1e-4 * (1 + float(np.abs(ref).max())):
                 k_ = int(np.abs(np.where(fin, got - ref, 0)).argmax())
                 raise Violation(PROP, "material-curve", f"umat.view() {name} curve differs from the analytic stress by {e:.3e} (stretch {lam[k_]:.4f}: {got[k_]:.6e} vs {ref[k_]:.6e}; {len(lam)} stretches in [{lo}, {hi}])", site=f"view.{name}")
             log.count("material-curve-" + name)
